@@ -46,6 +46,7 @@ type Worker struct {
 	ts     *TermStore
 	solver *Solver
 	truth  map[*Term]*dom
+	vars   map[*Term][]*Term
 	byteCs [256]*Term
 	run    *Run
 }
@@ -119,9 +120,11 @@ type Exec struct {
 	nowUnix   int64
 	onceDone  map[*Value]bool
 	auxN      int
+	profile   map[*ssa.Function]int
 	stack     []*ssa.Function
 	opaque    map[*Term]bool
 	pendingModelT, pendingModelF *Env
+	entangled map[*Term]bool
 }
 
 func (ex *Exec) touch(fn *ssa.Function) {
@@ -151,6 +154,34 @@ func (ex *Exec) domainOf(v *Term) *dom {
 	d := fullDom(v.S.W)
 	ex.domains[v] = &d
 	return &d
+}
+
+// varsOf returns the variables of a term (memoised per worker).
+func (w *Worker) varsOf(t *Term) []*Term {
+	if t.Op == OpVar {
+		return []*Term{t}
+	}
+	if t.NV == 0 {
+		return nil
+	}
+	if t.NV == 1 {
+		return []*Term{t.V1}
+	}
+	if vs, ok := w.vars[t]; ok {
+		return vs
+	}
+	seen := map[*Term]bool{}
+	var out []*Term
+	for i := 0; i < int(t.N); i++ {
+		for _, v := range w.varsOf(t.A[i]) {
+			if !seen[v] {
+				seen[v] = true
+				out = append(out, v)
+			}
+		}
+	}
+	w.vars[t] = out
+	return out
 }
 
 // truthSet returns the set of values of c's single small variable that make c true.
@@ -183,7 +214,11 @@ func (ex *Exec) feasible(c *Term) (canT, canF bool) {
 		t := ex.w.truthSet(c)
 		a := d.and(t)
 		b := d.andNot(t)
-		return !a.empty(), !b.empty()
+		// The domain is exact only for variables that occur in no multi-variable literal of
+		// the path condition; otherwise "infeasible" is still sound but "feasible" is not.
+		if a.empty() || b.empty() || !ex.entangled[c.V1] {
+			return !a.empty(), !b.empty()
+		}
 	}
 	// use cached model for one side
 	known := -1
@@ -260,6 +295,22 @@ func (ex *Exec) assume(c *Term, val bool) {
 		}
 		return
 	}
+	// split conjunctions so that single-variable conjuncts narrow the byte domains
+	if lit.Op == OpAnd {
+		ex.assume(lit.A[0], true)
+		ex.assume(lit.A[1], true)
+		return
+	}
+	if lit.Op == OpNot && lit.A[0].Op == OpOr {
+		ex.assume(lit.A[0].A[0], false)
+		ex.assume(lit.A[0].A[1], false)
+		return
+	}
+	if lit.Op == OpNot {
+		c, val = lit.A[0], false
+	} else {
+		c, val = lit, true
+	}
 	if c.NV == 1 && smallVar(c.V1) && c.sz < 4000 {
 		d := ex.domainOf(c.V1)
 		t := ex.w.truthSet(c)
@@ -275,6 +326,11 @@ func (ex *Exec) assume(c *Term, val bool) {
 		ex.domains[c.V1] = &nd
 	}
 	ex.pc = append(ex.pc, lit)
+	if lit.NV >= 2 {
+		for _, v := range ex.w.varsOf(lit) {
+			ex.entangled[v] = true
+		}
+	}
 	if ex.model != nil && !ex.evalBool(lit, ex.model) {
 		ex.model = nil
 	}
@@ -492,6 +548,7 @@ type Run struct {
 	decisionsN  atomic.Int64
 	unknownFeas atomic.Int64
 	stepsTotal  atomic.Int64
+	profiled    atomic.Bool
 
 	resMu        sync.Mutex
 	status       map[string]int
@@ -632,7 +689,7 @@ func (r *Run) newWorker(id int) *Worker {
 	if err != nil {
 		panic(err)
 	}
-	w := &Worker{id: id, ts: ts, solver: s, truth: map[*Term]*dom{}, run: r}
+	w := &Worker{id: id, ts: ts, solver: s, truth: map[*Term]*dom{}, vars: map[*Term][]*Term{}, run: r}
 	for i := 0; i < 256; i++ {
 		w.byteCs[i] = ts.BVConst(uint64(i), 8)
 	}
@@ -644,7 +701,7 @@ func (w *Worker) newExec(prefix []uint64) *Exec {
 		globals: map[*ssa.Global]*Value{}, initDone: map[*ssa.Package]bool{},
 		domains: map[*Term]*dom{}, prefix: prefix, budget: w.run.cfg.Budget,
 		byteConsts: &w.byteCs, emptyStr: &Str{conc: true}, funcsTouched: map[*ssa.Function]map[int]bool{},
-		nowUnix: 1700000000, opaque: map[*Term]bool{}}
+		nowUnix: 1700000000, opaque: map[*Term]bool{}, entangled: map[*Term]bool{}}
 	ex.vfs = newVFS()
 	return ex
 }
@@ -652,6 +709,26 @@ func (w *Worker) newExec(prefix []uint64) *Exec {
 func (w *Worker) runPath(prefix []uint64) {
 	r := w.run
 	ex := w.newExec(prefix)
+	if r.cfg.Verbose {
+		ex.profile = map[*ssa.Function]int{}
+		defer func() {
+			if ex.steps < 50000 || !r.profiled.CompareAndSwap(false, true) {
+				return
+			}
+			type kv struct {
+				f *ssa.Function
+				n int
+			}
+			var l []kv
+			for f, n := range ex.profile {
+				l = append(l, kv{f, n})
+			}
+			sort.Slice(l, func(i, j int) bool { return l[i].n > l[j].n })
+			for i := 0; i < len(l) && i < 25; i++ {
+				fmt.Fprintf(os.Stderr, "  profile %8d %s\n", l[i].n, l[i].f)
+			}
+		}()
+	}
 	status := "ok"
 	var msg string
 	func() {
@@ -817,6 +894,9 @@ func (ex *Exec) Assert(cond *Term, msg string) {
 		res, env := ex.getModel(nil)
 		if res == Sat {
 			ex.recordViolation("assert", msg, env)
+		} else if res == Unsat {
+			// must not happen: the executor only follows feasible branches
+			panic(pathAbort{"engine-error", "reached an assertion on an infeasible path (path condition unsat)"})
 		} else if res == Unknown {
 			r.resMu.Lock()
 			r.status["assert-unknown"]++
